@@ -41,16 +41,18 @@ static long m_min(void) { if (!mn) return -1; size_t b = 0; for (size_t k = 1; k
 static void m_del(size_t k) { if (ndead == deadcap) { deadcap = deadcap ? deadcap * 2 : 256; dead = realloc(dead, deadcap * sizeof *dead); } dead[ndead++] = M[k].h; M[k] = M[mn - 1]; mn--; }
 static void m_add(struct mev e) { if (mn == mcap) { mcap = mcap ? mcap * 2 : 256; M = realloc(M, mcap * sizeof *M); } M[mn++] = e; }
 
+static bool inf_ok;
 static double pick_time(void)
 {
     double now = cmb_time();
     unsigned w = (unsigned)vr_below(&R, 100);
-    if (tiemode) { static const double d[] = { 0, 0, 0, 1, 1, 2 }; return now + d[vr_below(&R, 6)]; }
+    if (tiemode) { static const double d[] = { 0, 0, 0, 1, 1, 2 }; if (inf_ok && w < 15) { VR_CNT("events_scheduled_at_infinite_time"); return INFINITY; } return now + d[vr_below(&R, 6)]; }
     if (w < 25) return now;
     if (w < 70) { static const double d[] = { 0, 0.5, 1, 1, 2, 3.25, 10 }; return now + d[vr_below(&R, 7)]; }
     if (w < 75) return now + 1e-300 * (double)vr_below(&R, 4);
     if (w < 78) return now > 1e300 ? now : 1e300;
     if (w < 80) return nextafter(now, INFINITY);
+    if (w < 84 && inf_ok) { VR_CNT("events_scheduled_at_infinite_time"); return INFINITY; }      /* parked at the end of time: a time like any other */
     return now + vr_unit(&R) * 20;
 }
 static int64_t pick_pri(void)
@@ -186,7 +188,7 @@ void vr_case(uint64_t seed, uint64_t idx, int profile)
     if (life) VR_CNT("queue_lives_after_the_first");
     cmb_event_queue_initialize(t0);
     mn = 0; ndead = 0; have_last = false; last_handle = 0; in_action = 0; executed = ties_time = ties_timeprio = inaction_mut = 0;
-    clear_requested = vr_chance(&R, 1, 3) ? 1 : 0;
+    clear_requested = vr_chance(&R, 1, 3) ? 1 : 0; inf_ok = vr_chance(&R, 1, 4);
     target_pop = profile == 2 ? (size_t)(64 << vr_below(&R, 5)) + vr_below(&R, 9) : profile == 1 ? 2 + vr_below(&R, 12) : 4 + vr_below(&R, 40);
     int budget = profile == 2 ? 2500 : 60 + (int)vr_below(&R, 340);
     vr_fp_mix((uint64_t)profile); vr_fp_mix((uint64_t)target_pop);
